@@ -170,3 +170,20 @@ Proof.
   - intros (a & b & Ha & Hb & Hact). simpl in Ha, Hb. injection Ha as <-. injection Hb as <-.
     vm_compute in Hact. discriminate.
 Qed.
+
+(** nested guards without else branches are the conjunction of the guards *)
+Lemma nested_value_lemma : forall (s : nstmt) (T v : Q),
+  nstmt_value s T v = if forallb (fun g => guard_holds g T) (nstmt_guards s) then v else 0%Q.
+Proof.
+  induction s as [i e | g b IH]; intros T v; cbn [nstmt_value nstmt_guards forallb].
+  - reflexivity.
+  - destruct (guard_holds g T); cbn [andb]; [apply IH | reflexivity].
+Qed.
+
+Lemma nested_both_lemma : forall (a b T v : Q) (i : nat) (e : string),
+  nstmt_value (NIf (Lower a) (NIf (Upper b) (NAssign i e))) T v
+  = stmt_value {| rs_guard := Both a b; rs_index := i; rs_expr := e |} T v.
+Proof.
+  intros. unfold stmt_value. cbn [nstmt_value guard_holds rs_guard].
+  destruct (Qle_bool a T); cbn [andb]; reflexivity.
+Qed.
